@@ -3,7 +3,11 @@
 package ecmascript_test
 
 import (
+	"fmt"
 	"reflect"
+	"sort"
+	"strconv"
+	"strings"
 
 	"github.com/Comcast/sheens/core"
 	"github.com/Comcast/sheens/match"
@@ -80,4 +84,68 @@ func allEmitted(w *core.Walked) []interface{} {
 		return nil
 	})
 	return out
+}
+
+// typedCanon renders a value canonically *with the Go type of every number*,
+// so that an in-place rewrite of int(7) to float64(7) shows (JSON would hide it).
+func typedCanon(x interface{}) string {
+	switch v := x.(type) {
+	case nil:
+		return "null"
+	case bool:
+		return strconv.FormatBool(v)
+	case float64:
+		return "f" + strconv.FormatFloat(v, 'g', -1, 64)
+	case string:
+		return strconv.Quote(v)
+	case match.Bindings:
+		return typedCanon(map[string]interface{}(v))
+	case map[string]interface{}:
+		ks := make([]string, 0, len(v))
+		for k := range v {
+			ks = append(ks, k)
+		}
+		sort.Strings(ks)
+		parts := make([]string, 0, len(ks))
+		for _, k := range ks {
+			parts = append(parts, strconv.Quote(k)+":"+typedCanon(v[k]))
+		}
+		return "{" + strings.Join(parts, ",") + "}"
+	case []interface{}:
+		parts := make([]string, 0, len(v))
+		for _, e := range v {
+			parts = append(parts, typedCanon(e))
+		}
+		return "[" + strings.Join(parts, ",") + "]"
+	default:
+		return fmt.Sprintf("%T(%v)", x, x)
+	}
+}
+
+// typify replaces some integral float64 numbers by other Go number types (as a
+// host that builds messages in Go, or an earlier action, would leave them).
+func typify(draw func(n int) int, x interface{}) interface{} {
+	switch v := x.(type) {
+	case float64:
+		if v == float64(int64(v)) {
+			switch draw(4) {
+			case 1:
+				return int(v)
+			case 2:
+				return int64(v)
+			}
+		}
+		return v
+	case map[string]interface{}:
+		for k, e := range v {
+			v[k] = typify(draw, e)
+		}
+		return v
+	case []interface{}:
+		for i, e := range v {
+			v[i] = typify(draw, e)
+		}
+		return v
+	}
+	return x
 }
